@@ -27,6 +27,9 @@ import (
 //	nested  - point j+1 is consulted only if the answer at point j is in On[j] (same ids every time it is consulted)
 //	change  - stable with Bounds for the first K attempts, then stable with Bounds2 / ids suffixed from level J
 //	pc      - stable, but the label changes after K attempts (to pc2) and the counter must restart cleanly
+//	reshape - stable with Bounds for the first K attempts; from then on the first J points are consulted
+//	          unchanged and are followed by a tail of *different* points (new ids, bounds Bounds2[J:]) that may
+//	          be shorter or longer than the old tail (a non-prefix-stable change of the consulted choice points)
 type script struct {
 	Kind    string  `json:"kind"`
 	Bounds  []uint  `json:"bounds"`
@@ -71,6 +74,20 @@ func runScript(s script) (start string, f *failure) {
 		ids := make([]string, len(bounds))
 		for i := range ids {
 			ids[i] = fmt.Sprintf("A.l.%d", i)
+		}
+		if s.Kind == "reshape" && a >= s.K {
+			if phase2 < 0 {
+				phase2 = a
+			}
+			bounds = s.Bounds2
+			ids = make([]string, len(bounds))
+			for i := range ids {
+				ids[i] = fmt.Sprintf("A.l.%d", i)
+				if i >= s.J {
+					ids[i] = fmt.Sprintf("A.l.new%d", i)
+				}
+			}
+			P2 = prod(bounds)
 		}
 		if (s.Kind == "change" || s.Kind == "pc") && a >= s.K {
 			if phase2 < 0 {
@@ -127,7 +144,7 @@ func runScript(s script) (start string, f *failure) {
 		if f := windows(hist, 0, 2*P, leaves(s), false, s.Kind); f != nil {
 			return start, f
 		}
-	case "change", "pc":
+	case "change", "pc", "reshape":
 		if s.K >= P {
 			if f := windows(hist[:s.K], 0, P, allCombos(s.Bounds), true, s.Kind+"/before"); f != nil {
 				return start, f
@@ -141,7 +158,7 @@ func runScript(s script) (start string, f *failure) {
 }
 
 func extra(s script) int {
-	if s.Kind == "change" || s.Kind == "pc" {
+	if s.Kind == "change" || s.Kind == "pc" || s.Kind == "reshape" {
 		return 3 * prod(s.Bounds2)
 	}
 	return 0
@@ -298,6 +315,15 @@ func genScripts(thorough bool) []script {
 				}
 				for _, b2 := range tuples(vals[:3], d) {
 					out = append(out, script{Kind: "pc", Bounds: b, Bounds2: b2, K: k})
+				}
+				// reshape: keep the first j points, replace the rest by 1..2 new points (shorter, equal or longer)
+				for j := 0; j < d; j++ {
+					for tl := 1; tl <= 2; tl++ {
+						for _, tail := range tuples(vals[:3], tl) {
+							b2 := append(append([]uint{}, b[:j]...), tail...)
+							out = append(out, script{Kind: "reshape", Bounds: b, Bounds2: b2, K: k, J: j})
+						}
+					}
 				}
 			}
 		}
